@@ -13,13 +13,16 @@
 (*           (no -t), "devfull" (a name whose writes fail), "existing_larger"*)
 (*   withp : -p <fmt> given                                                 *)
 (*   fault : "none" | "missing_script" | "missing_source" | "bad_config" | "devfull" *)
+(*           | "missing_key" (the signing key file is not there: signing fails, for  *)
+(*           the formats that sign - deb, rpm, apk; the others do not sign)           *)
 (***************************************************************************)
 EXTENDS Integers, Sequences, FiniteSets, TLC, Json
 
 CONSTANT CliDeviations   \* "NoRemoveOnError": the partial file is left behind; "RemoveWrongPath": cleanup uses the -t argument, not the resolved path
 
 Kinds == {"file", "file_foreign_ext", "file_other_ext", "dir", "dir_slash", "symlink_dir", "empty", "devfull", "existing_larger"}
-Faults == {"none", "missing_script", "missing_source", "bad_config", "devfull"}
+Faults == {"none", "missing_script", "missing_source", "bad_config", "devfull", "missing_key"}
+Signs(f) == f \in {"deb", "rpm", "apk"}
 Fmts == {"deb", "rpm", "apk", "archlinux", "ipk"}
 
 IsDirKind(k) == k \in {"dir", "dir_slash", "symlink_dir"}
@@ -69,7 +72,7 @@ Create ==      \* os.Create truncates whatever is there
 
 Package ==
   /\ pc = "package"
-  /\ IF argv.fault \in {"missing_script", "missing_source", "devfull"}
+  /\ IF argv.fault \in {"missing_script", "missing_source", "devfull"} \/ (argv.fault = "missing_key" /\ Signs(chosen))
      THEN pc' = "cleanup" /\ UNCHANGED fs
      ELSE fs' = "complete" /\ pc' = "close"
   /\ UNCHANGED <<argv, chosen, where, exit, said>>
@@ -106,6 +109,6 @@ ExportBehaviours ==
                                                    created |-> "created" \in said, cause |-> "cause" \in said])>>)
 
 (* the terminal outcome as a function of argv (what a trace of one run is compared with) *)
-ExpectFail(a) == \/ a.fault # "none"
+ExpectFail(a) == \/ (a.fault # "none" /\ ~(a.fault = "missing_key" /\ ~Signs(Built(a))))
                  \/ (~a.withp /\ ~CanInfer(a.fmt, a.kind))
 =============================================================================
